@@ -67,7 +67,9 @@ class Builtins:
         if v is None:
             return z3.IntVal(-7)
         if isinstance(v, str):
-            return z3.IntVal(hash(("s", v)) % (2 ** 31) + 1000)
+            return z3.IntVal(__import__("zlib").crc32(v.encode()) + 1000)
+        if isinstance(v, SStr):
+            return z3.Function("strid", z3.StringSort(), z3.IntSort())(v.term)
         if isinstance(v, tuple):
             t = z3.IntVal(-1)
             for x in reversed(v):
@@ -79,7 +81,7 @@ class Builtins:
             if getattr(v, "ident", None) is not None:
                 return v.ident
         if isinstance(v, SEnumMember):
-            return z3.IntVal(hash((v.enum, v.member)) % (2 ** 31) + 5000)
+            return z3.IntVal(__import__("zlib").crc32((v.enum + "." + v.member).encode()) + 5000)
         if isinstance(v, (SList, SDict)) and "ident" in v.ghost:
             return v.ghost["ident"]
         raise Unsupported(f"hash() of {type(v).__name__}")
